@@ -97,6 +97,7 @@ def cases(draw):
       # the same series keep arriving after the lists changed
       pts = pts + [[p[0], draw(ts_strategy()), draw(value_strategy())] for p in gens[-1]['points'][:6]]
     gens.append({'whitelist': wl_text, 'blacklist': bl_text, 'wl': wl, 'bl': bl, 'points': pts,
+                 'edited_during_read': draw(st.integers(0, 4)) == 0,
                  'wl_missing': draw(st.integers(0, 7)) == 0, 'bl_missing': draw(st.integers(0, 7)) == 0})
   if draw(st.integers(0, 5)) == 0:
     # a list file removed for a while and then deployed again with the same rules (new mtime, perhaps a new comment)
@@ -205,9 +206,63 @@ def execute(ctx, case):
           with open(pth, 'w') as f:
             f.write(text)
           os.utime(pth, (mtime, mtime))
+        nxt = case['generations'][gi + 1] if gi + 1 < len(case['generations']) else None
+        spying = bool(g.get('edited_during_read')) and nxt is not None and not g.get('wl_missing') and not g.get('bl_missing') \
+            and not nxt.get('wl_missing') and not nxt.get('bl_missing')
+        if spying:
+          # an operator saves the next version of the list files while this one is being read (after the daemon has
+          # the old lines in hand): the next poll has to pick the new version up
+          next_text = {os.path.realpath(real(wl_path)): nxt['whitelist'], os.path.realpath(real(bl_path)): nxt['blacklist']}
+          fired = set()
+
+          def deploy_next(path_, when=mtime + 100):
+            # (each file is replaced right after the daemon has read it, not the other one)
+            rp_ = os.path.realpath(path_)
+            if rp_ in next_text and rp_ not in fired:
+              fired.add(rp_)
+              with open(rp_, 'w') as f2:
+                f2.write(next_text[rp_])
+              os.utime(rp_, (when, when))
+
+          class SpyFile(object):
+            def __init__(self, f_, path_):
+              self.f = f_
+              self.path = path_
+
+            def __iter__(self):
+              for line in self.f:
+                yield line
+              deploy_next(self.path)
+
+            def readlines(self, *a):
+              out = self.f.readlines(*a)
+              deploy_next(self.path)
+              return out
+
+            def read(self, *a):
+              out = self.f.read(*a)
+              deploy_next(self.path)
+              return out
+
+            def __enter__(self):
+              return self
+
+            def __exit__(self, *a):
+              self.f.close()
+
+            def __getattr__(self, name):
+              return getattr(self.f, name)
+          b.regexlist.open = lambda path_, *a, **kw: SpyFile(open(path_, *a, **kw), path_)
         try:
-          WL.read_list()
-          BL.read_list()
+          try:
+            WL.read_list()
+            BL.read_list()
+          finally:
+            if spying:
+              try:
+                del b.regexlist.open
+              except AttributeError:
+                pass
         except Exception as e:  # noqa
           ctx.fail('C12:read_list-raised:%s' % type(e).__name__, 'read_list() raised %r for files %r / %r' % (
             e, g['whitelist'], g['blacklist']), case, 'list-loading')
